@@ -363,3 +363,73 @@ def _cli_check(tier, runs, budget, nproc):
 
 
 CHECKS["C19"] = _cli_check
+
+
+# ------------------------------------------------------------------------- reprosim (C22)
+
+ASSUME_REPRO = [
+    "children are fresh interpreters with the same PYTHONHASHSEED and the same random.seed(); address-space randomisation is switched off (setarch -R) and heap layout is perturbed by seeded ballast instead, so that a mismatch is itself reproducible",
+    "Z3's wall-clock timeouts are replaced by the same deterministic rlimit budget in every child (otherwise machine load would make the unchanged tree fail at random - an honest limit of the property); the same optional Z3 unknown schedule applies to all children",
+    "solver timeouts are off and the clock seen by isla.solver stands still at a perturbed epoch; runs cut by the deterministic work cap are compared on their common prefix",
+]
+
+
+def _repro_summary(lines):
+    digests = set()
+    nontrivial = set()
+    children = 0
+    solutions = 0
+    ends: Dict[str, int] = {}
+    inconclusive: Dict[str, int] = {}
+    perts: Dict[str, int] = {}
+    z3f: Dict[str, int] = {}
+    samples = []
+    for l in lines:
+        r = l["record"]
+        digests.add(r.get("digest"))
+        for e in r.get("ends") or []:
+            ends[str(e)[:30]] = ends.get(str(e)[:30], 0) + 1
+            children += 1
+        for inc in r.get("inconclusive") or []:
+            inconclusive[str(inc)[:40]] = inconclusive.get(str(inc)[:40], 0) + 1
+        for k, v in (r.get("z3_fired") or {}).items():
+            z3f[k] = z3f.get(k, 0) + v
+        solutions += r.get("solutions", 0)
+        if r.get("solutions", 0) >= 2 and not r.get("inconclusive"):
+            nontrivial.add(r.get("digest"))
+        if "plan" in l:
+            for p in l["plan"]["ops"][1:]:
+                for k in ("heap_objects", "gc", "import_order", "cwd", "env", "argv"):
+                    if p.get(k) not in (0, "default", [], None, {}):
+                        perts["perturb_" + k] = perts.get("perturb_" + k, 0) + 1
+            if len(samples) < 3 and r.get("solutions", 0) >= 2:
+                sc = l["plan"]["scenario"]
+                samples.append({"run_seed": l.get("run_seed"), "hashseed": l.get("hashseed"), "scenario": sc.get("formalization") or sc["formula_text"][:200],
+                                "k": l["plan"]["k"], "perturbations": l["plan"]["ops"], "z3_faults": l["plan"]["faults"], "first_solutions": r.get("sample")})
+    return {
+        "evaluations": len(lines),
+        "distinct_nontrivial": len(nontrivial),
+        "rule": "one evaluation = one scenario (generated grammar + constraint + solver settings, or a shipped formalization) solved k in {5,10,20,30} times by 2-3 fresh interpreters with identical hash seed and random seed under different perturbation schedules (heap ballast, GC mode, import order, epoch, cwd/HOME/COLUMNS/argv); verdict = all children print the same sequence (strings and tree shapes). Non-trivial = at least two solutions compared and no child lost; distinct = distinct digest of the reference child's solution sequence.",
+        "samples": samples or [{"note": "none"}],
+        "fresh_interpreters_started": children,
+        "solutions_compared": solutions,
+        "child_end_states": ends,
+        "inconclusive": inconclusive,
+        "faults_fired": dict(perts, **{"shared_" + k: v for k, v in z3f.items()}),
+        "real_components": ["isla.* in fresh interpreters", "the genuine random module (seeded by random.seed)", "Z3 decision procedures", "CPython allocator / GC"],
+        "stubbed_components": ["Z3 wall-clock timeout -> rlimit budget", "kernel ASLR -> off + seeded heap ballast", "time in isla.solver -> constant"],
+    }
+
+
+def _repro_check(tier, runs, budget, nproc):
+    thorough = tier == "thorough"
+    n = runs or (3000 if thorough else 72)
+    b = budget or (1800 if thorough else 120)
+    return driver.run_check(
+        "C22", tier, "reprosim", {}, n, b, wall=600.0, nproc_total=nproc,
+        level_text={"category": "exploration", "assumptions": ASSUME_REPRO},
+        summarize=_repro_summary,
+    )
+
+
+CHECKS["C22"] = _repro_check
